@@ -310,7 +310,8 @@ func concChild() {
 	budget, _ := strconv.Atoi(os.Getenv("C17_BUDGET_MS"))
 	deadline := time.Now().Add(time.Duration(budget) * time.Millisecond)
 	var out concOut
-	for it := first; time.Now().Before(deadline); it++ {
+	born := time.Now()
+	for it := first; time.Now().Before(deadline) && time.Since(born) < 8*time.Second; it++ {
 		if os.Getenv("C17_SCENARIO") == "conf" {
 			confOnce(it, writers, per, &out)
 		} else {
@@ -413,6 +414,12 @@ func concStage(env *vh.Env, rep *vh.Report, rng *vh.Rng) {
 			for _, r := range strings.Split(se.String(), "WARNING: DATA RACE")[1:] {
 				if j := strings.Index(r, "=================="); j >= 0 {
 					r = r[:j]
+				}
+				if strings.Contains(r, "main.setClock") || strings.Contains(r, "dateutil.SetDelta") || strings.Contains(r, "main.clockInit") {
+					// the harness's own clock write met a background goroutine that outlived its
+					// 10 s sleep (overloaded machine): not an access pair of the logger
+					rep.Count("conc:race-report-on-harness-clock-ignored")
+					continue
 				}
 				if strings.Contains(r, ").SetLevel") || strings.Contains(r, ").ApplyConfig") {
 					if !confRace {
